@@ -4,10 +4,15 @@ From Coq Require Import NArith List Bool Arith Lia.
 Import ListNotations.
 Require Import SR.Base.Res SR.Model.Globals.
 Require SR.Model.Structure.
-
-(* the statement, for an arbitrary choice of the two behaviours *)
-Definition history_independent_for (m : modes) : Prop :=
-  forall (h qs : list op), outs_m m (run_m m init h) qs = outs_m m init qs.
+(* The definitions of this development that occur in theorem statements (Props/) live in Spec/GlobalsWf.v (audit item G1).
+   The abbreviations keep the qualified names GlobalsP.name of other files resolving; they are parsing-only aliases. *)
+Require Export SR.Spec.GlobalsWf.
+Notation history_independent_for := SR.Spec.GlobalsWf.history_independent_for (only parsing).
+Notation L05 := SR.Spec.GlobalsWf.L05 (only parsing).
+Notation text_05_filler := SR.Spec.GlobalsWf.text_05_filler (only parsing).
+Notation filler_entry := SR.Spec.GlobalsWf.filler_entry (only parsing).
+Notation fragment := SR.Spec.GlobalsWf.fragment (only parsing).
+Notation fname := SR.Spec.GlobalsWf.fname (only parsing).
 
 (* ------------------------------------------------------------------ repaired modes *)
 
@@ -90,17 +95,6 @@ Proof.
 Qed.
 
 (* ------------------------------------------------------------------ the old modes *)
-
-Definition L05 : Structure.lvl := (48, 53)%N.
-Definition text_05_filler : str := [70; 73; 76; 76; 69; 82; 32; 80; 73; 67; 32; 88]%N.   (* FILLER PIC X *)
-Definition filler_entry : entry :=
-  {| Structure.elv := L05; Structure.ename := None; Structure.efill := Some Structure.FILLER;
-     Structure.eredef := None; Structure.epic := true; Structure.eocc := false;
-     Structure.etext := text_05_filler |}.
-(* the copybook fragment  05 FILLER PIC X.  05 FILLER PIC X.  (no level 01) *)
-Definition fragment : list entry := [filler_entry; filler_entry].
-
-Definition fname (n : N) : str := Structure.gen_name n.
 
 Lemma fragment_twice_old : forall ext,
   outs_m {| m_reset := false; m_ext_mutates := ext |} init [ParseCopybook fragment; ParseCopybook fragment]
